@@ -103,5 +103,5 @@ static void prop(Tape &t, Ctx &c) {
     (void) t; c.count("ocsp-disabled");
 #endif
 }
-VF_TARGET("C09.ocsp_response", prop, 2048, 20)
+VF_TARGET("C09.ocsp_response", prop, 2048, 12)
 namespace vf { void vf_global_init(int, char **) { psCryptoOpen(PSCRYPTO_CONFIG); } }
